@@ -327,7 +327,7 @@ def decode_program(data: bytes, prof: dict) -> dict:
     names = set()
     for _ in range(npools):
         ps = gen_pool(d, prof)
-        if ps.get("name") in names:
+        if ps.get("name") in names and ps.get("name"):
             ps.pop("name", None)
         if ps.get("name") is not None:
             names.add(ps["name"])
